@@ -11,7 +11,7 @@ D(m, e) == Fin(FALSE, m, e)
 S(s) == Str(s)
 LI(s) == List([j \in 1..Len(s) |-> I(s[j])])
 Day == Mul(FromInt(86400), MegaB)
-Pool(t) == CASE t = "int" -> {I(3), I(-2)} [] t = "uint" -> {U(5), U(2)} [] t = "double" -> {D(<<3>>, -1), D(<<1>>, 1)}
+Pool(t) == CASE t = "int" -> {I(3), I(-2)} [] t = "uint" -> {U(5), U(2)} [] t = "double" -> {D(<<3>>, -1), D(<<1>>, 1), Zero(FALSE)}
              [] t = "string" -> {S(<<97>>), S(<<98, 99>>)} [] t = "bytes" -> {Bytes(<<97>>), Bytes(<<0, 255>>)}
              [] t = "list" -> {LI(<<1, 2>>), LI(<<>>)} [] t = "bool" -> {Bool(TRUE), Bool(FALSE)}
              [] t = "map" -> {Map(<< <<S(<<97>>), I(1)>> >>), Map(<<>>)} [] t = "null" -> {Null}
@@ -25,6 +25,9 @@ OrderedT == {"int", "uint", "double", "string", "bytes", "bool", "timestamp", "d
 X == Var("x")
 \* no / one / several / only matching elements: every exit of the macros' loops
 MacroLists == L2("list") \cup { Lit(LI(<<2, 3, 1>>)), Lit(LI(<<0, 1>>)), Lit(LI(<<5, 5, 5>>)), Lit(LI(<<7>>)) }
+\* macros over a map range over its keys; filter / map give a LIST whatever the range was and however many elements pass
+KeyMaps == { Lit(Map(<< <<S(<<97>>), I(1)>>, <<S(<<98>>), I(2)>> >>)), Lit(Map(<< <<S(<<97>>), I(1)>> >>)), Lit(Map(<<>>)) }
+KeyPreds == { Bin("!=", X, Lit(S(<<122>>))), Bin("==", X, Lit(S(<<97>>))), Lit(Bool(FALSE)) }
 Roots ==
      UNION { { Bin(o, a, b) : o \in ArithOps(t), a \in L2(t), b \in L2(t) } : t \in Types }
   \cup { Bin(o, a, b) : o \in {"+", "-"}, a \in L2("timestamp"), b \in L2("duration") }
@@ -41,6 +44,8 @@ Roots ==
   \cup { Call("size", <<a>>) : a \in L2("string") \cup L2("bytes") \cup L2("list") \cup L2("map") }
   \cup { MCall(a, "size", <<>>) : a \in L2("string") \cup L2("list") }
   \cup { Macro(m, l, "x", p) : m \in {"all", "exists", "exists_one", "filter"}, l \in MacroLists, p \in {Bin(">", X, Lit(I(1))), Lit(Bool(TRUE)), Bin("<", X, Lit(I(0)))} }
+  \cup { Macro(m, l, "x", p) : m \in {"all", "exists", "exists_one", "filter"}, l \in KeyMaps, p \in KeyPreds }
+  \cup { Macro("map", l, "x", b) : l \in KeyMaps, b \in {X, Lit(I(1))} }
   \cup { Macro("map", l, "x", b) : l \in MacroLists, b \in {Bin("*", X, Lit(I(2))), Bin(">", X, Lit(I(1))), Lit(S(<<97>>))} }
   \cup { ListE(<<a>>) : a \in L2("int") \cup L2("string") } \cup { MapE(<< <<a, b>> >>) : a \in L2("string"), b \in L2("int") }
   \cup UNION { L2(t) : t \in Types }
